@@ -87,15 +87,28 @@ def menu(seed):
     M["cfg:spacing-generic"] = [("cfg", "grid", O("UniformGrid", spacing=SP * (0.9 + 0.2 * g)))]
     M["cfg:grid-center"] = [("cfg", "grid", O("UniformGrid", spacing=SP, center=T(1e-6, -2e-6, 3e-7)))]
     M["cfg:quasi"] = [("cfg", "grid", O("QuasiUniformGrid", dx=SP, dy=SP, dz=SP))]
-    M["cfg:quasi-aniso"] = [("cfg", "grid", O("QuasiUniformGrid", dx=SP, dy=0.5 * SP, dz=2 * SP))]
+    real_cons = [
+        ("delc", 5),
+        ("addc", dict(m="place_relative_to", obj="slab", other="volume", kw=dict(axes=T(2), own_positions=T(-1), other_positions=T(-1), margins=T(0.45e-6)))),
+        ("delc", 7),
+        ("addc", dict(m="place_relative_to", obj="src", other="volume", kw=dict(axes=T(2), own_positions=T(1), other_positions=T(1), margins=T(-0.1e-6)))),
+        ("delc", 8),
+        ("okw", "det", "partial_grid_shape", T(None, None, None)),
+        ("okw", "det", "partial_real_shape", T(0.2e-6, 0.2e-6, 0.1e-6)),
+        ("addc", dict(m="place_relative_to", obj="det", other="volume", kw=dict(axes=T(0, 1, 2), own_positions=T(-1, -1, -1), other_positions=T(-1, -1, -1), margins=T(0.1e-6, 0.2e-6, 0.3e-6)))),
+        ("okw", "pml_zlo", "partial_grid_shape", T(None, None, None)),
+        ("okw", "pml_zlo", "partial_real_shape", T(None, None, 0.2e-6)),
+    ]
+    M["cfg:real-space-constraints"] = list(real_cons)
+    M["cfg:quasi-aniso"] = [("cfg", "grid", O("QuasiUniformGrid", dx=SP, dy=0.5 * SP, dz=2 * SP))] + real_cons
     ex = [(-6 + i) * SP for i in range(13)]
     ey = [(-5 + i) * SP for i in range(11)]
     ez = [(-4 + i) * SP for i in range(9)]
     M["cfg:rect-uniform"] = [("cfg", "grid", O("RectilinearGrid", x_edges={"$a": ex, "dt": "float64"}, y_edges={"$a": ey, "dt": "float64"}, z_edges={"$a": ez, "dt": "float64"}))]
     wz = [SP * (0.7 + 0.6 * ((0.211 + k * 0.6180339887498949) % 1.0)) for k in range(8)]
     ezn = [sum(wz[:i]) - 0.5 * sum(wz) for i in range(9)]
-    M["cfg:rect-nonuniform"] = [("cfg", "grid", O("RectilinearGrid", x_edges={"$a": ex, "dt": "float64"}, y_edges={"$a": ey, "dt": "float64"}, z_edges={"$a": ezn, "dt": "float64"}))]
-    M["cfg:rect-float32-edges"] = [("cfg", "grid", O("RectilinearGrid", x_edges={"$a": ex, "dt": "float32"}, y_edges={"$a": ey, "dt": "float32"}, z_edges={"$a": ezn, "dt": "float32"}))]
+    M["cfg:rect-nonuniform"] = [("cfg", "grid", O("RectilinearGrid", x_edges={"$a": ex, "dt": "float64"}, y_edges={"$a": ey, "dt": "float64"}, z_edges={"$a": ezn, "dt": "float64"}))] + real_cons
+    M["cfg:rect-float32-edges"] = [("cfg", "grid", O("RectilinearGrid", x_edges={"$a": ex, "dt": "float32"}, y_edges={"$a": ey, "dt": "float32"}, z_edges={"$a": ezn, "dt": "float32"}))] + real_cons
     M["cfg:dtype-f32"] = [("cfg", "dtype", {"$dtype": "float32"})]
     M["cfg:complex"] = [("cfg", "use_complex_fields", True)]
     M["cfg:real-forced"] = [("cfg", "use_complex_fields", False)]
@@ -152,11 +165,11 @@ def menu(seed):
     # ---- the base source: switch / profile / polarisation / angles
     sw = {
         "start_time": dict(start_time=1e-15),
-        "start_after_periods": dict(start_after_periods=0.5),
+        "start_after_periods": dict(start_after_periods=0.5, period=3e-15),
         "end_time": dict(end_time=4e-15),
-        "end_after_periods": dict(end_after_periods=1.5),
+        "end_after_periods": dict(end_after_periods=1.5, period=3e-15),
         "on_for_time": dict(start_time=1e-15, on_for_time=2e-15),
-        "on_for_periods": dict(on_for_periods=1.0),
+        "on_for_periods": dict(on_for_periods=1.0, period=3e-15),
         "period": dict(start_after_periods=0.5, period=2e-15),
         "fixed": dict(fixed_on_time_steps=[0, 3, 7]),
         "always-off": dict(is_always_off=True),
@@ -214,7 +227,8 @@ def menu(seed):
     add_det("energy-reduce", "EnergyDetector", plot=False, reduce_volume=True)
     add_det("energy-aggregate", "EnergyDetector", plot=False, aggregate="mean", partial_grid_shape=T(3, 3, 3))
     add_det("poynting", "PoyntingFluxDetector", plot=False, direction="+", dtype=f64)
-    add_det("poynting-opts", "PoyntingFluxDetector", plot=False, direction="-", reduce_volume=False, keep_all_components=True)
+    add_det("poynting-opts", "PoyntingFluxDetector", plot=False, direction="-", reduce_volume=False, keep_all_components=True, partial_grid_shape=T(1, 1, 1))
+    add_det("poynting-no-reduce", "PoyntingFluxDetector", plot=False, direction="-", reduce_volume=False)
     add_det("poynting-axis", "PoyntingFluxDetector", plot=False, direction="+", fixed_propagation_axis=0, partial_grid_shape=T(2, 2, 2))
     add_det("phasor", "PhasorDetector", wave_characters=wcs, dtype=c128)
     add_det("phasor-two-waves", "PhasorDetector", wave_characters=wcs2, components=T("Ey",), reduce_volume=True)
@@ -222,7 +236,8 @@ def menu(seed):
     add_det("phasor-gauss-window", "PhasorDetector", wave_characters=wcs, apodization=O("GaussianWindow", center_time=3e-15, sigma_time=1e-15))
     add_det("phasor-tukey-window", "PhasorDetector", wave_characters=wcs, apodization=O("TukeyWindow", start_time=1e-15, end_time=5e-15, alpha=0.3))
     add_det("phasor-poynting", "PhasorPoyntingFluxDetector", wave_characters=wcs, direction="+", dtype=c128)
-    add_det("phasor-poynting-opts", "PhasorPoyntingFluxDetector", wave_characters=wcs2, direction="-", keep_all_components=True, fixed_propagation_axis=2)
+    add_det("phasor-poynting-opts", "PhasorPoyntingFluxDetector", wave_characters=wcs2, direction="-", keep_all_components=True, partial_grid_shape=T(1, 1, 1))
+    add_det("phasor-poynting-axis", "PhasorPoyntingFluxDetector", wave_characters=wcs2, direction="-", fixed_propagation_axis=2, partial_grid_shape=T(2, 2, 2))
     add_det("closed", "ClosedSurfacePoyntingFluxDetector", plot=False, partial_grid_shape=T(3, 3, 3), dtype=f64)
     add_det("closed-opts", "ClosedSurfacePoyntingFluxDetector", plot=False, partial_grid_shape=T(3, 3, 3), orientation="inward", axes=T(0, 2))
     add_det("closed-phasor", "ClosedSurfacePhasorPoyntingFluxDetector", wave_characters=wcs, partial_grid_shape=T(3, 3, 3), dtype=c128)
@@ -257,8 +272,8 @@ def menu(seed):
     M["con:size-to-object"] = [("delc", 3), ("addc", dict(m="size_relative_to", obj="slab", other="cube", kw=dict(axes=T(1), proportions=T(2.0))))]
     M["con:same-position-and-size"] = [("add", O("UniformMaterialObject", name="twin", material=O("Material", permittivity=3.0), placement_order=2), [dict(m="same_position_and_size", obj="twin", other="cube", kw={})])]
     M["con:extend-direction"] = [("ckw", 5, "sides", T("+")), ("ckw", 6, "direction", "-")]
-    M["con:extend-offset"] = [("ckw", 6, "offset", -0.1e-6)]
-    M["con:extend-grid-offset"] = [("ckw", 6, "grid_offset", -1)]
+    M["con:extend-offset"] = [("delc", 6), ("addc", dict(m="extend_to", obj="slab", other="src", kw=dict(axis=2, direction="+", offset=0.1e-6)))]
+    M["con:extend-grid-offset"] = [("delc", 6), ("addc", dict(m="extend_to", obj="slab", other="src", kw=dict(axis=2, direction="+", grid_offset=1)))]
     M["con:extend-to-object"] = [("delc", 6), ("addc", dict(m="extend_to", obj="slab", other="src", kw=dict(axis=2, direction="+")))]
     M["con:extend-other-position"] = [("delc", 6), ("addc", dict(m="extend_to", obj="slab", other="src", kw=dict(axis=2, direction="+", other_position=1.0, grid_offset=0)))]
     M["con:grid-coordinate-sides"] = [("ckw", 8, "sides", T("+", "-", "+")), ("ckw", 8, "coordinates", T(5, 2, 6))]
@@ -387,10 +402,37 @@ def _cmp_leaves(a, b, what, fails, meta):
         xa, ya = np.asarray(x), np.asarray(y)
         if xa.dtype != ya.dtype or xa.shape != ya.shape:
             fails.append(dict(sig=f"{what}:leaf-dtype-or-shape-differs", detail=dict(meta, leaf=p, original=[str(xa.dtype), list(xa.shape)], imported=[str(ya.dtype), list(ya.shape)])))
-        elif not np.array_equal(xa, ya, equal_nan=True):
+        elif not (np.array_equal(xa, ya, equal_nan=True) if xa.dtype.kind in "fc" else np.array_equal(xa, ya)):
             d = float(np.max(np.abs(xa.astype(np.complex128) - ya.astype(np.complex128)))) if xa.dtype.kind in "fc" else None
             fails.append(dict(sig=f"{what}:leaf-values-differ", detail=dict(meta, leaf=p, max_abs_diff=d)))
     return n
+
+
+def _blame(obj, owner="setup"):
+    """the innermost value that export_json cannot serialise, as 'OwnerType.field:ValueType'."""
+    from fdtdx.conversion.json import _export_json
+    from fdtdx.core.jax.pytrees import TreeClass
+    import dataclasses
+
+    try:
+        _export_json(obj)
+        return None
+    except Exception:
+        pass
+    subs = []
+    if isinstance(obj, TreeClass):
+        subs = [(f"{type(obj).__name__}.{f.name}", f.value) for f in obj.get_public_fields()]
+    elif dataclasses.is_dataclass(obj) and not isinstance(obj, type):
+        subs = [(f"{type(obj).__name__}.{k}", v) for k, v in vars(obj).items()]
+    elif isinstance(obj, dict):
+        subs = [(owner, v) for v in obj.values()]
+    elif isinstance(obj, (list, tuple)):
+        subs = [(owner, v) for v in obj]
+    for o, v in subs:
+        r = _blame(v, o)
+        if r is not None:
+            return r
+    return f"{owner}:{type(obj).__name__}"
 
 
 def _leaf_class(p):
@@ -426,12 +468,26 @@ def run_case(case):
         s = setup.dumps()
         evals += 1
     except Exception as e:
-        return dict(ok=False, sig=f"export-raises:{tag}:{type(e).__name__}", detail=dict(meta, error=repr(e)[:500]), nontrivial=0, evals=1, outcome="export-raises")
+        who = _blame([cfg, objs, cons])
+        return dict(ok=False, sig=f"export-raises:{type(e).__name__}:{who}", detail=dict(meta, error=repr(e)[:500], offending=who), nontrivial=0, evals=1, outcome="export-raises")
     try:
         setup2 = JsonSetup.loads(s)
         evals += 1
     except Exception as e:
         return dict(ok=False, sig=f"import-raises:{tag}:{type(e).__name__}", detail=dict(meta, error=repr(e)[:500]), nontrivial=0, evals=2, outcome="import-raises")
+    # ---- the imported setup itself: same pytree structure, array dtypes and values as the original
+    pre = []
+    _cmp_leaves((cfg, objs), (setup2.config, setup2.object_list), "imported-setup", pre, meta)
+    dtype_changed = False
+    for f in pre:
+        if f["sig"].endswith("leaf-dtype-or-shape-differs"):
+            o, i = f["detail"]["original"], f["detail"]["imported"]
+            if o[1] == i[1]:
+                f["sig"] = f"import-changes-array-dtype:{o[0]}->{i[0]}:{_leaf_class(f['detail']['leaf'])}"
+                dtype_changed = True
+        else:
+            f["sig"] = f"{f['sig']}:{tag}:{_leaf_class(f['detail'].get('leaf', ''))}"
+    fails += pre
     try:
         s2 = setup2.dumps()
         if s2 != s:
@@ -440,6 +496,13 @@ def run_case(case):
             fails.append(dict(sig=f"re-export-differs:{tag}", detail=dict(meta, line=i, original=a[i - 2 : i + 2] if i < len(a) else None, imported=b[i - 2 : i + 2] if i < len(b) else None)))
     except Exception as e:
         fails.append(dict(sig=f"re-export-raises:{tag}:{type(e).__name__}", detail=dict(meta, error=repr(e)[:300])))
+    if dtype_changed:  # everything downstream (time step, offsets, weights) is a consequence: report the cause only
+        seen, out = {}, []
+        for f in fails:
+            seen[f["sig"]] = seen.get(f["sig"], 0) + 1
+            if seen[f["sig"]] <= 2:
+                out.append(f)
+        return dict(ok=False, failures=out, detail=dict(meta, by_sig=seen), nontrivial=1, evals=evals, outcome="import-changes-array-dtype")
     # ---- placement of both
     errA = errB = None
     try:
@@ -483,4 +546,4 @@ def run_case(case):
         seen[f["sig"]] = seen.get(f["sig"], 0) + 1
         if seen[f["sig"]] <= 2:
             out.append(f)
-    return dict(ok=not fails, failures=out, detail=dict(meta, leaves_compared=n, objects=len(oa), by_sig=seen), nontrivial=int(bool(case["devs"])), evals=evals + n, outcome="round-trip-placed")
+    return dict(ok=not fails, failures=out, detail=dict(meta, leaves_compared=n, objects=len(oa), by_sig=seen), nontrivial=int(bool(case["devs"])), evals=evals, outcome="round-trip-placed")
